@@ -1,7 +1,9 @@
 package props
 
 import (
+	"errors"
 	"fmt"
+	"io"
 	"strconv"
 	"strings"
 	"time"
@@ -165,6 +167,7 @@ func (e *env) checkEventStream(events []obs, opt streamOpts) {
 		}
 	}
 	links := e.chanLinks(events)
+	customSeen := map[*link]bool{}
 	for ci, ch := range order {
 		s := st[ch]
 		name := fmt.Sprintf("channel %d (%s)", ci, ch.String())
@@ -244,6 +247,20 @@ func (e *env) checkEventStream(events []obs, opt streamOpts) {
 			return
 		}
 		fully := opt.lossless && opt.consumerAlive && (opt.nodeClosedAt == 0) && !l.peerReset && l.txErr == nil && s.closes == 0
+		// a channel that reports EOF has read its transport to the end: whatever the peer had sent
+		// before it closed must have surfaced before the close event (also when the node was
+		// closed afterwards). On a custom endpoint this holds for the first channel only: the
+		// provider hands the same dead transport out again.
+		if opt.lossless && !l.datagram && l.peerClosed && !l.peerReset && l.txErr == nil && s.closes == 1 &&
+			errors.Is(s.closeErr, io.EOF) && !(l.ep.kind == epCustom && customSeen[l]) {
+			fully = true
+		}
+		if l.ep.kind == epCustom {
+			if customSeen[l] {
+				continue // re-provided dead custom transport (see C14, not demanded)
+			}
+			customSeen[l] = true
+		}
 		if fully && len(s.frames) < complete {
 			dsim.Failf("frames-lossless", "%s: the peer %s sent %d valid frames completely, only %d frame events arrived by quiescence (consumer alive, node open)",
 				name, l.name, complete, len(s.frames))
@@ -521,7 +538,50 @@ func c10Body() func(h []dsim.Rec) {
 	snapshot := cons.snapshot()
 	cStopped, cEnded := cons.state()
 	alive := !cStopped && !cEnded
-	if !closeEarly {
+	// the peer of a custom transport ends it (possibly handing over its last bytes together with
+	// the EOF). The provider would hand the dead transport out again for ever, so the application
+	// closes the node as soon as it learns that the channel is gone.
+	nodeClosed := closeEarly
+	if !closeEarly && alive && dsim.Choose(3) == 0 {
+		var cl *link
+		for _, l := range e.allLinks() {
+			if l.ep.kind == epCustom {
+				cl = l
+			}
+		}
+		if cl != nil {
+			count("cov:custom-transport-ended-by-peer")
+			for i := 0; i < 1+dsim.Choose(3); i++ {
+				if cl.send(sendValid, false) != nil {
+					break
+				}
+			}
+			closing := false
+			e.mu.Lock()
+			cons.onEvent = func(o *obs) {
+				if o.kind != evClose {
+					return
+				}
+				e.mu.Lock()
+				first := !closing
+				closing = true
+				e.mu.Unlock()
+				if first {
+					dsim.Go("closer", func() { e.node.Close() })
+				}
+			}
+			e.mu.Unlock()
+			cl.closeByPeer(false)
+			dsim.Sleep(3 * time.Second)
+			dsim.Settle("after-custom-eof")
+			e.mu.Lock()
+			nodeClosed = closing
+			e.mu.Unlock()
+			snapshot = cons.snapshot()
+			closedAt = e.now()
+		}
+	}
+	if !nodeClosed {
 		e.node.Close()
 	}
 	return func(h []dsim.Rec) {
